@@ -58,6 +58,7 @@ ANALYSES = ["distances", "displacements", "angles", "dihedrals", "distances_pbc"
             # periodic paths (run on every trajectory that has a cell; the cell-mix trajectories run only these)
             "displacements_pbc", "distances_pbc_noopt", "density", "contacts_pbc", "wernet_nilsson_pbc",
             "baker_hubbard_pbc", "baker_hubbard_union_pbc", "displacements_pbc_noopt", "angles_pbc_noopt", "dihedrals_pbc_noopt",
+            "unitcell_vectors", "unitcell_volumes",
             # optional-argument variants
             "rg_masses", "center_of_geometry", "gyration_tensor", "principal_moments", "asphericity", "distances_noopt",
             "displacements_noopt", "angles_noopt", "dihedrals_noopt", "rmsd_ref_subset", "rmsd_precentered", "sasa_atom_sel",
@@ -68,7 +69,8 @@ NUMERIC = ["rg", "rg_masses", "center_of_mass", "center_of_geometry", "inertia_t
            "density", "distances_pbc", "distances_pbc_noopt"]
 PERIODIC = ["distances_pbc", "displacements_pbc", "distances_pbc_noopt", "angles_pbc", "dihedrals_pbc", "neighbors",
             "neighborlist", "contacts_pbc", "wernet_nilsson_pbc", "baker_hubbard_pbc", "baker_hubbard_union_pbc", "density",
-            "displacements_pbc_noopt", "angles_pbc_noopt", "dihedrals_pbc_noopt", "neighbors_haystack"]
+            "displacements_pbc_noopt", "angles_pbc_noopt", "dihedrals_pbc_noopt", "neighbors_haystack", "unitcell_vectors",
+            "unitcell_volumes"]
 # per-frame cell KIND patterns (O rectangular, T sheared), cycled over the frames: a shortcut that decides the
 # kernel, a buffer size or a grid once per call from frame 0 (or from "all frames") shows up as a frame whose value
 # changes with its company
@@ -616,6 +618,14 @@ def trajs_for(ctx):
     out.append({"id": "cellseries", "kind": "random", "n_atoms": rng.choice([30, 42]), "n_frames": 8 if quick else 14,
                 "seed": rng.randrange(10 ** 6), "cell_series": "one-component", "cell_seed": rng.randrange(10 ** 6),
                 "only": PERIODIC, "env_every": 3 if quick else 1})
+    # cells given as lengths + angles, sizes 3 nm next to 20-40 nm, angles exactly 90 / a hair off 90 / oblique: the
+    # lengths+angles -> box-vector conversion happens on every access for all frames of the trajectory at once
+    pat = rng.choice(["sLXsOl", "LsOsXl", "sOLsXL"])
+    out.append({"id": "cell-near90", "kind": "random", "n_atoms": rng.choice([28, 40]), "n_frames": rng.choice([6, 7, 8]),
+                "seed": rng.randrange(10 ** 6), "cell_angles": pat, "cell_seed": rng.randrange(10 ** 6), "only": PERIODIC,
+                "sub": True, "env_every": 3 if quick else 1})
+    out.append({"id": "2EQQ-near90", "kind": "file", "path": pdb, "frames": sorted(rng.sample(range(20), 6)), "cell_angles": rng.choice(["sLsOXl", "LsXsOl"]),
+                "cell_seed": rng.randrange(10 ** 6), "cell_size": [2.8, 3.6], "only": PERIODIC, "sub": True, "env_every": 4 if quick else 2})
     # the same sheared cell in every frame (what "has the box changed since the last call?" caches are written for):
     # only useful together with the call-history pass, so it goes through the history environments only
     out.append({"id": "cellconst", "kind": "random", "n_atoms": rng.choice([26, 38]), "n_frames": 4, "seed": rng.randrange(10 ** 6),
